@@ -577,7 +577,7 @@ pub fn oracle_c07(case: &SimCase, run: &SimRun) -> Verdict {
                 for d in g.trans_deps(i) {
                     let mode = case.fail.get(d).copied().unwrap_or(0);
                     let blocked = match mode {
-                        0 => false,
+                        0 | 4 => false,
                         3 if case.watch => false,
                         _ => true,
                     };
@@ -592,6 +592,41 @@ pub fn oracle_c07(case: &SimCase, run: &SimRun) -> Verdict {
                             )),
                             ..v
                         };
+                    }
+                }
+            }
+        }
+    }
+    // (1b) watch mode: a dependency told the target it was out of date (delivered), then failed:
+    // the target must stay blocked
+    if case.watch {
+        for (k, e) in run.events.iter().enumerate() {
+            if let Ev::CheckBegin(t) | Ev::SvcStart(t) | Ev::SvcSpawnFail(t) = e {
+                if let Some(i) = g.index_of(t) {
+                    for n in g.edges(i) {
+                        if g.targets[n].kind != Kind::Build {
+                            continue;
+                        }
+                        let nid = g.ids(n);
+                        if last_word(&h, &nid, t, "Build", k) != Some(false) {
+                            continue;
+                        }
+                        let last_finish = h.last_before(k, |e| {
+                            matches!(e, Ev::Completed(x) | Ev::Skipped(x) | Ev::SpawnFail(x) if *x == nid)
+                                || matches!(e, Ev::Finish(x, false) if *x == nid)
+                        });
+                        let failed = last_finish.is_some_and(|f| {
+                            matches!(&run.events[f], Ev::Finish(_, false) | Ev::SpawnFail(_))
+                        });
+                        if failed {
+                            return Verdict {
+                                violation: Some(format!(
+                                    "watch mode: {} started (event #{}) although its dependency {} announced it was out of date and then failed",
+                                    t, k, nid
+                                )),
+                                ..v
+                            };
+                        }
                     }
                 }
             }
